@@ -2,7 +2,7 @@ import UralModel.Model.Quote
 import UralModel.Gen.NfkcDelims
 import UralModel.Gen.QuoteTables
 /-!
-# `ural.quote.safely_unquote_auth_item` (FX-C01-NFKCUSERINFO)
+# `ural.quote.safely_unquote_auth_item` (FX-C01-194b1c7)
 
 Since the fix the unquoter of a user name / password is no longer the bare partial
 `partial(unquote, only_printable=True, normalize_space=True, unsafe=UNSAFE_FOR_AUTH_ITEM,
